@@ -731,6 +731,7 @@ def part_dom(ctx):
                 ms["new_phis"] += c.n_new_phis
                 ms["inserted_assigns"] += c.n_extra
                 ms["new_versions"] += c.n_versions
+                ms["blocks_with_params_hoisted"] = ms.get("blocks_with_params_hoisted", 0) + c.param_hoisted
             if r == [1]:
                 ms["accepted"] += 1
                 continue
